@@ -80,6 +80,12 @@ def main():
             except BaseException:  # noqa
                 res = {"fatal": traceback.format_exc()}
         try:
+            rss_kib = resource.getrusage(resource.RUSAGE_SELF).ru_maxrss
+            if isinstance(res, dict) and rss_kib > float(os.environ.get("VERIF_RECYCLE_GIB", "1.5")) * (1 << 20):
+                res["_recycle"] = True
+        except Exception:  # noqa
+            pass
+        try:
             s = json.dumps(res, ensure_ascii=True, default=str)
         except Exception:  # noqa
             s = json.dumps({"fatal": "unserialisable result: " + traceback.format_exc()})
